@@ -160,6 +160,7 @@ type TokenOp struct {
 	InSelect   bool
 	Cancelable bool // the select also waits for a context's Done channel
 	Blocking   bool
+	Held       uint64 // locks held while waiting for the token
 }
 
 // HoldAdd is a WaitGroup.Add on a repository hold.
